@@ -37,10 +37,6 @@ const c31LeasePrefix = "/kafscale/partition-leases"
 
 var c31BarrierMagic = []byte("\x7fVF-C31-BARRIER\x7f")
 
-type c31Frame struct {
-	backend int
-	payload []byte
-}
 
 // c31Backend is a fake broker: it records every frame, acknowledges produce requests whose
 // acks != 0 with code 0 for every partition, and never answers acks = 0.
